@@ -24,7 +24,7 @@ na = [{"property_id": p, "reason": NOT_YET.get(p, "check not built yet in this s
 m = {
     "version": 1,
     "setup_cmd": "./setup.sh",
-    "hooks": {"guard": "RESERVOIRPY_VERIF", "enable": "export RESERVOIRPY_VERIF=1 (read at import by the guarded hook; off by default)",
+    "hooks": {"guard": "RESERVOIRPY_VERIF", "enable": "no hook exists: /repo carries no instrumentation (C09's schedule probes are injected from the harness side); the guard name is reserved only",
               "baseline_off_cmd": "cd /repo && env -u RESERVOIRPY_VERIF /venv/bin/python -m pytest -ra -q -p no:cacheprovider --timeout=900 --continue-on-collection-errors",
               "source_commits": [], "add_only": True},
     "engines": [{"name": "coq-proof+correspondence", "path": "/verif/check",
